@@ -427,7 +427,115 @@ def explore(ctx: Ctx):
         ctx.violation('control', 'comparator accepted a flipped decision', broken='negative control', no_input=True)
 
 
+# ---------------------------------------------------------------- S-api: which codons a variant is judged on
+
+CODON_IMPORTS = ['Model.Base', 'Model.Pattern', 'Model.Transcript', 'Model.CodonsInRange']
+
+
+def api_codons(args):
+    """(strand, exons[(s,e,f)], seq (start 1), pos, ref_len) -> [(ext_start, codon bases)] of the real get_variant_codons, or None when it raised."""
+    strand, exons, seq, pos, ref_len = args
+    common.use_repo()
+    from .. import codoncheck as cc
+    from valiant.exon import Exon
+    from valiant.seq import Seq
+    from valiant.strings.dna_str import DnaStr
+    from valiant.strings.strand import Strand
+    from valiant.targeton import get_variant_codons
+    from valiant.transcript import Transcript
+    from valiant.transcript_info import TranscriptInfo
+    from valiant.uint_range import UIntRangeSortedList
+    from valiant.variant import Variant
+    try:
+        tr = Transcript(TranscriptInfo('chr1', Strand(strand), 'G', 'T'),
+                        UIntRangeSortedList([Exon(s, e, i, f) for s, e, i, f in cc.numbered(exons, strand)]))
+        cs = get_variant_codons(tr, Seq(1, DnaStr(seq)), Variant(pos, DnaStr('A' * ref_len), DnaStr('C')))
+        return [(c.ext_start, str(c.ext)) for c in cs]
+    except Exception:
+        return None
+
+
+def codon_stage(ctx: Ctx):
+    """Transcripts of 1-4 exons of 1-9 bases (micro-exons included) on low-complexity sequences (runs of identical codons), both strands; a variant
+    span of 0-9 bases anywhere: the codons returned = the model's, and = the distinct codons of the coding walk that hold an exonic base of the span."""
+    from .. import codoncheck as cc
+    rng = ctx.rng
+    cases = []
+    for _ in range(ctx.n(900, 12000)):
+        strand = rng.choice('+-')
+        k = rng.choice([1, 2, 3, 3, 4])
+        lens = [rng.choice([1, 1, 2, 3, 3, 4, 5, 6, 7, 9]) for _ in range(k)]
+        pos, segs = rng.randint(3, 6), []
+        for ln in lens:
+            segs.append((pos, pos + ln - 1))
+            pos += ln + rng.randint(1, 4)
+        n = pos + 3
+        order = segs if strand == '+' else list(reversed(segs))
+        f, ex = rng.choice([0, 0, 1, 2]), []
+        for s_, e_ in order:
+            ex.append((s_, e_, f))
+            f = gen.next_frame(f, e_ - s_ + 1)
+        alphabet = rng.choice(['ACGT', 'AC', 'CTG', 'A', 'GT'])
+        unit = ''.join(rng.choice(alphabet) for _ in range(rng.choice([1, 2, 3, 3, 6])))
+        seq = (unit * (n // len(unit) + 1))[:n] if rng.random() < 0.7 else gen.rand_dna(rng, n)
+        p = rng.randint(2, n - 1)
+        ln = rng.choice([0, 1, 1, 2, 2, 3, 4, 5, 6, 9])
+        if p + max(ln, 1) - 1 > n:
+            continue
+        cases.append((strand, sorted(ex), seq, p, ln))
+    res = pool_map(api_codons, cases, chunksize=64)
+    exprs = []
+    for (strand, ex, seq, p, ln), got in zip(cases, res):
+        ctx.evaluations += 1
+        tr = cc.coq_transcript(ex, strand)
+        impl = 'None' if got is None else '(Some ' + coq_list(f'({a}, {coq_dna(b)})' for a, b in got) + ')'
+        exprs.append(f'codons_agree (codon_keys (get_variant_codons {tr} (mkSeq 1 {coq_dna(seq)}) {p} {ln})) {impl}')
+        # independent oracle: the distinct codons (by their lowest genomic position) of the walk holding an exonic base of the span
+        fr = codonspec.Frame(ex, strand)
+        span = range(p, p + max(ln, 1)) if ln != 1 else [p]
+        if ln == 0:
+            span = [p]
+        want = set()
+        cut = False
+        for x in span:
+            if x in fr.idx:
+                cp = fr.codon_positions(x)
+                if cp is None:
+                    cut = True
+                else:
+                    want.add(min(cp))
+        if got is not None and not cut:
+            have = {a for a, _ in got}
+            if want:
+                ctx.nontriv(('codons', strand, tuple(ex), p, ln))
+            ctx.count('codon_spans:%d' % min(len(want), 3))
+            if have != want:
+                ctx.violation('spec_violation', f'codons judged for a variant at {p} (+{ln}) on {strand} {ex}: first bases {sorted(have)}, the codons of the span start at {sorted(want)}',
+                              {'surface': 'api', 'kind': 'codons', 'case': [strand, [list(e) for e in ex], seq, p, ln], 'got': got})
+            elif len(have) != len(got):
+                ctx.violation('spec_violation', f'a codon is judged twice for a variant at {p} (+{ln}) on {strand} {ex}: {got}',
+                              {'surface': 'api', 'kind': 'codons', 'case': [strand, [list(e) for e in ex], seq, p, ln], 'got': got})
+    bad, err = coq_eval(CODON_IMPORTS, exprs, chunk=300)
+    ctx.corr['cases'] += len(exprs)
+    if err:
+        ctx.violation('correspondence', 'model evaluation failed: ' + err[:300], broken='coqc cases (C15 codons)', no_input=True)
+    for i in bad[:20]:
+        ctx.corr['disagreements'] += 1
+        strand, ex, seq, p, ln = cases[i]
+        ctx.violation('correspondence', f'get_variant_codons differs from the model for a variant at {p} (+{ln}) on {strand} {ex}',
+                      {'surface': 'api', 'kind': 'codons_model', 'case': [strand, [list(e) for e in ex], seq, p, ln], 'got': res[i]},
+                      broken='correspondence S-api targeton.get_variant_codons / Transcript.get_codons_in_range (Model/CodonsInRange.v)')
+    ctl = [e.replace('(Some [', '(Some [(1, []); ', 1) for e in exprs if '(Some [(' in e][:3]
+    if ctl:
+        badc, _ = coq_eval(CODON_IMPORTS, ctl)
+        ctx.controls['run'] += len(ctl)
+        ctx.controls['rejected'] += len(badc)
+        if len(badc) != len(ctl):
+            ctx.violation('control', 'comparator accepted a perturbed codon list', broken='negative control', no_input=True)
+
+
 def run(ctx: Ctx):
+    codon_stage(ctx)
     explore(ctx)
     return {'rule': 'Random SGE designs with one background variant under study starting inside a targeton (synonymous / missense / '
                     'nonsense / stop-to-stop SNV, coding MNV, in-frame and frame-shifting coding indel, deletion reaching from an intron into '
@@ -435,13 +543,28 @@ def run(ctx: Ctx):
                     'bases and a synonymous SNV elsewhere, both strands, run under the three valid force-flag combinations (and the invalid '
                     'one); exit status and absence of the offending targeton files are compared with the decision rule computed by an '
                     'independent codon-walk oracle, and the verdict of the Coq model of the validation loop on the classified variants is '
-                    'compared with the run. Non-trivial = a (background set, kind, verdict) combination.'}
+                    'compared with the run. S-api: the codons a variant is judged on (get_variant_codons / get_codons_in_range) on micro-exon transcripts over '
+                    'low-complexity sequences = the Coq model and = the distinct walk codons holding an exonic base of the span. Non-trivial = a (background set, kind, verdict) combination.'}
 
 
 def replay(ctx: Ctx, path: str) -> int:
     with open(path) as fh:
         v = json.load(fh)
     case = v.get('case', {})
+    if case.get('kind') in ('codons', 'codons_model'):
+        from .. import codoncheck as cc
+        strand, ex, seq, p, ln = case['case']
+        ex = [tuple(e) for e in ex]
+        got = api_codons((strand, ex, seq, p, ln))
+        impl = 'None' if got is None else '(Some ' + coq_list(f'({a}, {coq_dna(b)})' for a, b in got) + ')'
+        badm, err = coq_eval(CODON_IMPORTS, [f'codons_agree (codon_keys (get_variant_codons {cc.coq_transcript(ex, strand)} (mkSeq 1 {coq_dna(seq)}) {p} {ln})) {impl}'])
+        fr = codonspec.Frame(ex, strand)
+        want = {min(fr.codon_positions(x)) for x in (range(p, p + ln) if ln > 1 else [p]) if x in fr.idx and fr.codon_positions(x)}
+        if badm or err or (got is not None and ({a for a, _ in got} != want or len({a for a, _ in got}) != len(got))):
+            print(f'VIOLATION property=C15 replay={path}')
+            return 1
+        print('replay: property holds on this input now')
+        return 0
     if 'design' not in case:
         print('replay: nothing to run (obligation-only replay file)')
         return 0
